@@ -301,10 +301,26 @@ func (a *APIServer) sendOne(ctx context.Context, get func(string) (*grpc.ClientC
 		if begin != nil {
 			begin()
 		}
-		cctx, cancel := context.WithTimeout(ctx, 20*time.Second)
+		sh := m.Shape
+		if str(sh, "acct") == "locked" {
+			// the addressed start-up account is locked first, so the request has to open it (keystore decryption) on its way
+			if c1, err := get("valid-c1"); err == nil {
+				lctx, lcancel := context.WithTimeout(ctx, 20*time.Second)
+				_, _ = pb.NewAccountManagerClient(c1).Lock(lctx, &pb.LockAccountRequest{Account: "W1/a1"})
+				lcancel()
+			}
+		}
+		// an impatient caller: the deadline travels with the request (grpc-timeout) and the server cancels the handler's context when it expires
+		patience := 20 * time.Second
+		switch str(sh, "patience") {
+		case "gone-5ms":
+			patience = 5 * time.Millisecond
+		case "gone-40ms":
+			patience = 40 * time.Millisecond
+		}
+		cctx, cancel := context.WithTimeout(ctx, patience)
 		var rerr error
 		detail := ""
-		sh := m.Shape
 		switch m.Method {
 		case "Sign":
 			var r *pb.SignResponse
@@ -450,6 +466,23 @@ func (a *APIServer) sendOne(ctx context.Context, get func(string) (*grpc.ClientC
 		return answered, detail, nil
 }
 
+// probeAlive: another client's ordinary requests - a listing AND a signature with its own account - must still be answered.
+func probeAlive(ctx context.Context, probe *grpc.ClientConn) (bool, error) {
+	pctx, pcancel := context.WithTimeout(ctx, 10*time.Second)
+	defer pcancel()
+	pres, perr := pb.NewListerClient(probe).ListAccounts(pctx, &pb.ListAccountsRequest{Paths: []string{"W2"}})
+	if perr != nil || len(pres.GetAccounts()) != 2 {
+		return false, perr
+	}
+	dom := make([]byte, 32)
+	dom[0] = 2 // randao
+	_, serr := pb.NewSignerClient(probe).Sign(pctx, &pb.SignRequest{Id: &pb.SignRequest_Account{Account: "W2/b0"}, Domain: dom, Data: make([]byte, 32)})
+	if serr != nil {
+		return false, fmt.Errorf("listing answered, signing request not: %w", serr)
+	}
+	return true, nil
+}
+
 // runFuzz sends every shape message over a real connection and probes liveness after each one.
 func (a *APIServer) runFuzz(ctx context.Context, msgs []FuzzMsg, log *Log) error {
 	conns := map[string]*grpc.ClientConn{}
@@ -477,11 +510,7 @@ func (a *APIServer) runFuzz(ctx context.Context, msgs []FuzzMsg, log *Log) error
 		alive := false
 		var perr error
 		for try := 0; try < 3 && !alive; try++ { // a loaded machine may be slow; a dead or wedged server stays silent for all three
-			pctx, pcancel := context.WithTimeout(ctx, 10*time.Second)
-			var pres *pb.ListAccountsResponse
-			pres, perr = pb.NewListerClient(probe).ListAccounts(pctx, &pb.ListAccountsRequest{Paths: []string{"W2"}})
-			pcancel()
-			alive = perr == nil && len(pres.GetAccounts()) == 2
+			alive, perr = probeAlive(ctx, probe)
 		}
 		log.Emit(Ev{"ev": "FuzzEnd", "id": m.ID, "method": m.Method, "answered": answered, "detail": detail, "alive": alive})
 		if !alive {
@@ -533,7 +562,7 @@ func (a *APIServer) RunStorm(ctx context.Context, msgs []FuzzMsg, workers, gener
 					return
 				}
 				atomic.AddInt64(&sent, 1)
-				if wctx.Err() == nil && strings.Contains(detail, "DeadlineExceeded") {
+				if wctx.Err() == nil && strings.Contains(detail, "DeadlineExceeded") && !strings.HasPrefix(str(m.Shape, "patience"), "gone") {
 					atomic.AddInt64(&unanswered, 1)
 				}
 			}
@@ -572,10 +601,10 @@ func (a *APIServer) RunStorm(ctx context.Context, msgs []FuzzMsg, workers, gener
 	alive := false
 	perrs := ""
 	if err == nil {
-		pctx, pcancel := context.WithTimeout(ctx, 10*time.Second)
-		pres, perr := pb.NewListerClient(probe).ListAccounts(pctx, &pb.ListAccountsRequest{Paths: []string{"W2"}})
-		pcancel()
-		alive = perr == nil && len(pres.GetAccounts()) == 2
+		var perr error
+		for try := 0; try < 3 && !alive; try++ {
+			alive, perr = probeAlive(ctx, probe)
+		}
 		if perr != nil {
 			perrs = perr.Error()
 		}
